@@ -119,6 +119,8 @@ def run(tier):
             else:
                 rep.note("%s ended with %s" % (t["sid"], x["status"]))
             continue
+        if not x["result"]["ev"]:
+            continue                      # a variant that does not apply to this file (e.g. no stabiliser record to edit)
         ev = [{k: v for k, v in e.items() if k not in ("bad", "raised_text")} for e in x["result"]["ev"]]
         traces.append(dict(meta=dict(tid=len(traces) + 1, sid=t["sid"]), ev=ev, detail=x["result"]["ev"]))
     verdicts, tl = tracecheck.validate([dict(meta=t["meta"], ev=t["ev"]) for t in traces], "Trace_CaseIO")
